@@ -377,6 +377,7 @@ pub fn run_lockfree(bodies: Vec<Body>, prefix: &[usize]) -> Execution {
     let sh = Arc::new(Shared {
         m: Mutex::new((0..n).map(|_| TState { phase: Phase::Running, go: false, tid: None }).collect()),
         cv: Condvar::new(),
+        in_user_code: (0..n).map(|_| std::sync::atomic::AtomicBool::new(false)).collect(),
     });
     for (i, body) in bodies.into_iter().enumerate() {
         let sh2 = sh.clone();
